@@ -47,3 +47,5 @@ func TestC07(t *testing.T) { runProp(t, "C07", drawC07) }
 
 func TestC08(t *testing.T) { runProp(t, "C08", drawC08) }
 func TestC16(t *testing.T) { runProp(t, "C16", drawC16) }
+
+func TestC09(t *testing.T) { runProp(t, "C09", drawC09) }
